@@ -140,11 +140,10 @@ def _string_to_number(value: str) -> Union[int, float]:
     if s == "-Infinity":
         return float("-inf")
     if _STR_RADIX_RE.fullmatch(s):
-        n = int(s[2:], _RADIX_OF[s[1].lower()])
-        return n if -(2**53) <= n <= 2**53 else float(n)
+        return norm_number(int(s[2:], _RADIX_OF[s[1].lower()]))
     if not _STR_DECIMAL_RE.fullmatch(s):
         return float("nan")
-    if s.lstrip("+-").isdigit():
+    if s.lstrip("+-").isdigit() and len(s) <= 25:  # longer ones round to a double anyway
         n = int(s)
         if n == 0 and s[0] == "-":
             return -0.0
@@ -174,7 +173,10 @@ def norm_number(n: Union[int, float]) -> Union[int, float]:
     """Numbers are IEEE doubles: an integer result outside the exactly representable
     range (+-2**53) is rounded to the nearest double instead of staying a host big int."""
     if type(n) is int and not -9007199254740992 <= n <= 9007199254740992:
-        return float(n)
+        try:
+            return float(n)
+        except OverflowError:  # beyond the largest double
+            return float("inf") if n > 0 else float("-inf")
     return n
 
 
